@@ -101,6 +101,11 @@ def _assert_site(prog, fn, rg, b, t, eb):
         tr = ty_range(rg.ty_of(a)) or ty_range(rg.ty_of(bb))
         if _within(r, tr):
             return Site(fn, b, kind, t["span"]["line"], txt, "discharged", "D1 interval %s within %s" % (r, tr))
+        if m.group(1) == "Sub" and rb0 and rb0[0] == rb0[1] and rb0[0] >= 0:
+            # D6': `x - c` under a comparison still in force that shows x >= c
+            lb = _value_lower_bound(prog, fn, b, expr_str(a))
+            if lb >= rb0[0]:
+                return Site(fn, b, kind, t["span"]["line"], txt, "discharged", "D6 %s >= %d by a test still in force" % (expr_str(a)[:60], lb))
         if m.group(1) == "Add" and (rg.ty_of(a) or rg.ty_of(bb)) == "usize":
             # D7: lengths of at most two distinct live allocations plus a small constant: the allocations
             # are disjoint parts of one address space, their sizes sum well below usize::MAX
@@ -301,6 +306,64 @@ def _len_lower_bound(prog, fn, blk, src):
                         lb = max(lb, c)
                     elif op == "Ge" and v == 0:
                         lb = max(lb, c + 1)
+        best = lb if best is None else min(best, lb)
+    return best or 0
+
+
+_VB_FLOW = {}
+
+
+def _value_lower_bound(prog, fn, blk, txt):
+    """Largest c such that on every path to the end of `blk` a comparison still in force shows
+    value(txt) >= c (`if x < 2 { return Err } .. x - 2`)."""
+    from df import Flow
+
+    key = (id(prog), fn.norm, "vb")
+    if key not in _VB_FLOW:
+        def track(k):
+            return k[0] == "expr" and re.match(r"^(Lt|Le|Gt|Ge|Eq|Ne)\(", k[1]) is not None
+
+        try:
+            _VB_FLOW[key] = Flow(prog, _mods(prog), fn, track, user_stop=True)
+        except RuntimeError:
+            _VB_FLOW[key] = None
+    fl = _VB_FLOW[key]
+    if fl is None:
+        return 0
+    worlds = fl.at_term(blk)
+    if not worlds:
+        return 0
+    best = None
+    for w in worlds:
+        lb = 0
+        for k, (pos, vals) in w:
+            if k[0] != "expr" or not pos or len(vals) != 1:
+                continue
+            v = list(vals)[0]
+            m = re.match(r"^(Lt|Le|Gt|Ge|Eq)\((.+), const\((\d+)\)\)$", k[1])
+            if m and m.group(2) == txt:
+                op, c = m.group(1), int(m.group(3))
+                if op == "Lt" and v == 0:
+                    lb = max(lb, c)
+                elif op == "Le" and v == 0:
+                    lb = max(lb, c + 1)
+                elif op == "Gt" and v == 1:
+                    lb = max(lb, c + 1)
+                elif op == "Ge" and v == 1:
+                    lb = max(lb, c)
+                elif op == "Eq" and v == 1:
+                    lb = max(lb, c)
+            m = re.match(r"^(Lt|Le|Gt|Ge)\(const\((\d+)\), (.+)\)$", k[1])
+            if m and m.group(3) == txt:
+                op, c = m.group(1), int(m.group(2))
+                if op == "Lt" and v == 1:
+                    lb = max(lb, c + 1)
+                elif op == "Le" and v == 1:
+                    lb = max(lb, c)
+                elif op == "Gt" and v == 0:
+                    lb = max(lb, c)
+                elif op == "Ge" and v == 0:
+                    lb = max(lb, c + 1)
         best = lb if best is None else min(best, lb)
     return best or 0
 
